@@ -43,6 +43,7 @@ def frozen(v):
 
 def _replace_contents(xs, new):
     xs.length, xs.elem, xs.uid, xs.cache, xs.parts = new.length, new.elem, new.uid, new.cache, new.parts
+    xs.aux = {}        # measures (pyvc.texts) described the old contents; joins are recomposed from `parts`
 
 
 def as_slist(interp, src):
